@@ -23,7 +23,7 @@ from vlib import Check, run_tlc, tlc_must_pass, run_cases
 PROP = "C19"
 
 # (mode, quick stride, thorough stride)
-MODES = [("args", 1, 1), ("huge", 1, 1), ("extreme", 9, 1), ("main", 29, 1)]
+MODES = [("args", 1, 1), ("huge", 27, 4), ("extreme", 25, 1), ("main", 29, 1)]
 
 
 def _cfg(mode, seed, stride, all_forms):
@@ -72,18 +72,15 @@ def run(tier, seed):
     for mode, qs, ts in MODES:
         stride = qs if quick else ts
         cfg = _cfg(mode, seed, stride, all_forms=not quick)
-        res = run_tlc("MC_Fmt", cfg, f"c19_{mode}", workers=8, heap="6g")
+        res = run_tlc("MC_Fmt", cfg, f"c19_{mode}", workers=8, heap="6g", coverage=False)
         tlc_must_pass(res, f"Fmt laws / emission ({mode})")
         chk.add_tlc(res, f"{mode}: laws of Fmt.tla + case emission (stride {stride})")
         cases = list(res.lines("CASE"))
-        if mode == "huge":
-            # 70000-character results: a seeded sample, every conversion kept
-            r.shuffle(cases)
-            cases = cases[:400 if quick else 2500]
         for c in cases:
             for fm in c["forms"]:
                 emitted.append((c, fm))
-    exhaustive = not quick
+    # the huge universe (70000-character results) is always a seeded subset
+    exhaustive = False
 
     # ---- specification self-test against Python's % -----------------------
     agree = {"ok": 0, "err": 0}
